@@ -86,7 +86,8 @@ func verifCompileRouting(text string, outboundName2Id map[string]uint8, bpf *bpf
 			&routing.DeduplicateParamsOptimizer{},
 		}
 	} else {
-		opts = []routing.RulesOptimizer{&routing.AliasOptimizer{}}
+		// (geodata values cannot be built without the reader; merge / dedup stay off)
+		opts = []routing.RulesOptimizer{&routing.AliasOptimizer{}, &routing.DatReaderOptimizer{Logger: log, LocationFinder: assets.NewLocationFinder([]string{verifGeoDir()})}}
 	}
 	prog, err := routing.NewNormalizedProgram(conf.Routing.Rules, conf.Routing.Fallback, opts...)
 	if err != nil {
